@@ -90,6 +90,11 @@ CHECKS = {
         technique="man-in-the-middle exploration of the real handshake: one fresh real handshake per substitution (every byte position x xor masks x CRC fix-up of all three datagrams; field-level forgeries from attacker keys and another honest session; wrong-token challenge responses), plus deviation-bounded exploration (<=2/3 of drop/dup/delay) of one and two concurrent handshakes with cross-delivery; oracles recompute signature verification, ECDH+HKDF and AES-GCM with the cryptography primitives directly",
         text="2.1e3 (quick) / 3.2e3 byte mutants, 123 forgeries, 2.7e3 (quick) schedule executions. (a) a client with a key or CONNECTED must have processed a hello whose payload verifies under the pinned key and whose parameters it adopted exactly; (b) honest runs agree on one 16-byte key and token; (c) every connect event is preceded by a datagram from that address that decrypts under the connection's key and carries the issued token.",
         note="cryptographic primitives trusted; <=2 (quick) / 3 deviations in the schedule part; replay of a genuinely signed hello of another session is allowed by the statement"),
+    "C03": dict(
+        engine="mcx", category="model_checking", design="5/C03",
+        technique="deviation-bounded exploration (<=1 network deviation) of every send program of <=2/3 steps from three start states (fresh, counters preset 5 below the 16-bit wrap, reduced 63-value ring that wraps within every history) on the real stack; monitor on every emitted datagram: per-key nonce table, reference AES-GCM decryption with the full 20-byte header as AAD, plaintext marker search",
+        text="384 (quick) / ~3500 (thorough) configurations x all single deviations (2.0e4 executions, 3.4e6 ticks quick): no two encrypted datagrams of a session share bytes 0-11; every datagram emitted by a keyed endpoint except SERVER_HELLO decrypts under the session key with the whole header authenticated; the application marker never appears on the wire. Thorough adds one honest 70000-frame history that really wraps the 16-bit counter.",
+        note="non-decreasing clock and at most one update per frame assumed (the statement's premises); the reduced ring is used for this monitor only, argument in the module docstring and DESIGN.md"),
 }
 
 NOT_YET = {
